@@ -1,7 +1,7 @@
 (** Properties/C19.v — "Glyph widths and Unicode maps follow the font dictionaries exactly".
     Only statements, each closed by [exact] of a lemma proved in Font/*Proofs.v. *)
 From Coq Require Import Sorted.
-From PdfV Require Import Base.Prelude Gen.Generated Font.Model Font.Spec Font.WidthProofs Font.UtfProofs Font.CmapProofs.
+From PdfV Require Import Base.Prelude Gen.Generated Font.Model Font.Spec Font.WidthProofs Font.UtfProofs Font.CmapProofs Font.WriterProofs.
 
 (** the width table: after [_set w c x] (which never panics, in any of its five growth cases)
     code c has width x and every other code keeps its width *)
@@ -59,12 +59,27 @@ Theorem C19_cmap_read : forall t, wf_cmap t -> parse_cmap (render_cmap t) = Ok (
 Proof. exact cmap_read. Qed.
 Print Assumptions C19_cmap_read.
 
-(** the full statement about the writer; NOT proved universally (see DESIGN §12.C19): validated on every
-    generated map by the correspondence mode cmap_rt against the specification, and here on a concrete map *)
-Definition C19_cmap_rt_full_statement : Prop :=
-  forall m : cmap, (forall e, In e m -> fst e < 65536 /\ wf_ustr (snd e)) ->
+(** writer -> reader, for EVERY map (a ToUnicodeMap is its content sorted by code; codes are u16, texts are strings
+    of Unicode scalar values): write_cmap never panics — the u16 addition of its block splitter cannot overflow, no
+    block is empty — its text is a CMap text in the spelling of [render_cmap] whose sections are the blocks of
+    consecutive codes, and parse_cmap reads that text back as exactly the map *)
+Theorem C19_cmap_rt : forall m : cmap, (forall e, In e m -> fst e < 65536 /\ wf_ustr (snd e)) ->
     StronglySorted (fun a b => fst a < fst b) m ->
     exists t, write_cmap m = Ok t /\ parse_cmap t = Ok m.
+Proof. exact cmap_rt_full. Qed.
+Print Assumptions C19_cmap_rt.
+
+(** the writer's text is a well-formed CMap text that denotes the map (independent of the reader) *)
+Theorem C19_cmap_write : forall m : cmap, Forall wf_entry m -> StronglySorted key_lt m ->
+  exists t, write_cmap m = Ok (render_cmap t) /\ wf_cmap t /\ cmap_denote t = m.
+Proof. exact write_cmap_text. Qed.
+Print Assumptions C19_cmap_write.
+
+(** every map built by ToUnicodeMap::create is in that domain *)
+Theorem C19_cmap_rt_created : forall l, Forall wf_entry l ->
+  exists t, write_cmap (map_create l) = Ok t /\ parse_cmap t = Ok (map_create l).
+Proof. exact cmap_rt_created. Qed.
+Print Assumptions C19_cmap_rt_created.
 
 Example C19_cmap_rt_example :
   let m := [(0, [65]); (1, [66; 128512]); (2, []); (7, [1114111]); (9, [97]); (10, [98]); (300, [55295]);
